@@ -632,4 +632,180 @@ theorem FInv.define {opts : Opts} {d : Decls} {nodes : List AstNode} :
     | head => exact m2 r (s1 r hr)
     | tail _ hm => exact s2 m hm r hr
 
+/-- the entry `resolve_constants_simple` writes for an evaluated constant -/
+def writeOf (opts : Opts) (s : SymDef) (v : Value) : SymDef :=
+  match v with
+  | .unknown => { s with value := v }
+  | _ => if opts.optStatic && s.known then { s with value := v, resolved := true } else { s with value := v }
+
+/-- induction principle for `resolve_constants_simple`: every write is one of two kinds, at a
+    constant node of the list, on a symbol that is not marked -/
+theorem resolveConstantsSimple_ind (opts : Opts) (d : Decls) (nodes : List AstNode) (P : Defs → Prop)
+    (hdef : ∀ defs lv nm e ne r dv, AstNode.symbol lv nm (.constant e) ne (some r) ∈ nodes → P defs → (defs.sym r).resolved = false →
+      opts.defines.find? (·.1 == (d.symbols.decls.getD r default).name) = some dv →
+      P (defs.setSym r { defs.sym r with value := dv.2, resolved := true }))
+    (hev : ∀ defs lv nm e ne r v, AstNode.symbol lv nm (.constant e) ne (some r) ∈ nodes → P defs → (defs.sym r).resolved = false →
+      opts.defines.find? (·.1 == (d.symbols.decls.getD r default).name) = none → evalSimple d defs e = .ok v →
+      P (defs.setSym r (writeOf opts (defs.sym r) v))) :
+    ∀ (l : List AstNode), (∀ n ∈ l, n ∈ nodes) → ∀ (defs defs' : Defs) (c : Nat), P defs →
+      resolveConstantsSimple opts d defs l = .ok (defs', c) → P defs' := by
+  have key : ∀ (l : List AstNode), (∀ n ∈ l, n ∈ nodes) → ∀ (acc : Except String (Defs × Nat)) (defs' : Defs) (c : Nat),
+      (∀ x k, acc = .ok (x, k) → P x) →
+      l.foldl (fun acc n =>
+        match acc with
+        | .error e => .error e
+        | .ok (defs, count) =>
+          match n with
+          | .symbol _ _ (.constant e) _ (some r) =>
+            let s := defs.sym r
+            if s.resolved then .ok (defs, count + 1)
+            else
+              let fullName := (d.symbols.decls.getD r default).name
+              match opts.defines.find? (·.1 == fullName) with
+              | some dv => .ok (defs.setSym r { s with value := dv.2, resolved := true }, count + 1)
+              | none =>
+                match evalSimple d defs e with
+                | .error m => .error m
+                | .ok v =>
+                  let s' := { s with value := v }
+                  match v with
+                  | .unknown => .ok (defs.setSym r s', count)
+                  | _ =>
+                    if opts.optStatic && s.known then .ok (defs.setSym r { s' with resolved := true }, count + 1)
+                    else .ok (defs.setSym r s', count + 1)
+          | _ => .ok (defs, count)) acc = .ok (defs', c) → P defs' := by
+    intro l
+    induction l with
+    | nil => intro _ acc defs' c hacc h; exact hacc defs' c h
+    | cons n rest ih =>
+      intro hsub acc defs' c hacc h
+      rw [List.foldl_cons] at h
+      refine ih (fun m hm => hsub m (List.mem_cons_of_mem _ hm)) _ defs' c ?_ h
+      intro x k hx
+      have hn := hsub n List.mem_cons_self
+      cases acc with
+      | error e => cases hx
+      | ok y =>
+        obtain ⟨y1, y2⟩ := y
+        have hy := hacc y1 y2 rfl
+        simp only at hx
+        split at hx
+        · rename_i lv nm e ne r
+          split at hx
+          · injection hx with hx; injection hx with h1 _; rw [← h1]; exact hy
+          · rename_i hres
+            have hres' : (y1.sym r).resolved = false := by simpa using hres
+            split at hx
+            · rename_i dv hfind
+              injection hx with hx; injection hx with h1 _; rw [← h1]
+              exact hdef y1 lv nm e ne r dv hn hy hres' hfind
+            · rename_i hfind
+              split at hx
+              · cases hx
+              · rename_i v hevs
+                have hw := hev y1 lv nm e ne r v hn hy hres' hfind hevs
+                split at hx
+                · injection hx with hx; injection hx with h1 _; rw [← h1]
+                  simpa [writeOf] using hw
+                · rename_i hnu
+                  split at hx
+                  · rename_i hc
+                    injection hx with hx; injection hx with h1 _; rw [← h1]
+                    have : writeOf opts (y1.sym r) v = { y1.sym r with value := v, resolved := true } := by
+                      unfold writeOf
+                      split
+                      · exact absurd rfl (hnu)
+                      · simp only [hc, if_true]
+                    rw [this] at hw; exact hw
+                  · rename_i hc
+                    injection hx with hx; injection hx with h1 _; rw [← h1]
+                    have : writeOf opts (y1.sym r) v = { y1.sym r with value := v } := by
+                      unfold writeOf
+                      split
+                      · exact absurd rfl (hnu)
+                      · simp only [hc, Bool.false_eq_true, if_false]
+                    rw [this] at hw; exact hw
+        · injection hx with hx; injection hx with h1 _; rw [← h1]; exact hy
+  intro l hsub defs defs' c hp h
+  unfold resolveConstantsSimple at h
+  exact key l hsub (.ok (defs, 0)) defs' c (fun x k hx => by injection hx with hx; injection hx with h1 _; rw [← h1]; exact hp) h
+
+theorem slot_setSym (defs : Defs) (r r' : Nat) (s' : SymDef) (hs : (defs.symbols.getD r none).isSome = true) :
+    ((defs.setSym r s').symbols.getD r' none).isSome = (defs.symbols.getD r' none).isSome := by
+  unfold Defs.setSym
+  simp only
+  rcases getD_set_eq_or defs.symbols r r' (some s') none with h | ⟨h1, h2⟩
+  · rw [h]
+  · subst h1; rw [h2, hs]; rfl
+
+theorem sym_setSym_self (defs : Defs) (r : Nat) (s' : SymDef) (hs : (defs.symbols.getD r none).isSome = true) :
+    (defs.setSym r s').sym r = s' := by
+  have hin : r < defs.symbols.length := by
+    by_cases hl : r < defs.symbols.length
+    · exact hl
+    · have : defs.symbols.getD r none = none := by simp [List.getD_eq_getElem?_getD, Nat.not_lt.mp hl]
+      rw [this] at hs; cases hs
+  unfold Defs.setSym Defs.sym
+  simp only [getD_set_self_lt defs.symbols r _ none hin]
+  rfl
+
+/-- one write of `resolve_constants_simple` -/
+theorem FInv.write {opts : Opts} {d : Decls} {defs : Defs} {nodes : List AstNode} (f : FInv opts d defs nodes) (hs : SlotsOK defs nodes)
+    (lv : Nat) (nm : String) (e : Expr) (ne : Bool) (r : Nat) (hn : AstNode.symbol lv nm (.constant e) ne (some r) ∈ nodes)
+    (s' : SymDef) (hni : NI opts d (defs.setSym r s') (.symbol lv nm (.constant e) ne (some r))) :
+    FInv opts d (defs.setSym r s') nodes ∧ SlotsOK (defs.setSym r s') nodes := by
+  have hslot := hs _ hn r rfl
+  refine ⟨⟨f.kinv, f.fn, fun r' hr' => f.s0 r' (by rw [slot_setSym defs r r' s' hslot] at hr'; exact hr'), fun m hm => ?_⟩,
+    fun m hm r' hr' => by rw [slot_setSym defs r r' s' hslot]; exact hs m hm r' hr'⟩
+  by_cases hr : symRef m = some r
+  · have hm' : m = AstNode.symbol lv nm (.constant e) ne (some r) := f.fn m hm _ hn r hr rfl
+    rw [hm']; exact hni
+  · refine NI_congr opts d defs _ m (fun r' hr' => ?_) (f.ni m hm)
+    have hne : r' ≠ r := fun he => hr (by rw [hr', he])
+    refine ⟨?_, slot_setSym defs r r' s' hslot⟩
+    rcases sym_setSym defs r r' s' with h | ⟨h1, _⟩
+    · exact h
+    · exact absurd h1 hne
+
+/-- **`resolve_constants_simple` keeps the slot facts** -/
+theorem FInv.consts {opts : Opts} {d : Decls} {defs defs' : Defs} {nodes : List AstNode} {c : Nat}
+    (f : FInv opts d defs nodes) (hs : SlotsOK defs nodes)
+    (h : resolveConstantsSimple opts d defs nodes = .ok (defs', c)) : FInv opts d defs' nodes ∧ SlotsOK defs' nodes := by
+  refine resolveConstantsSimple_ind opts d nodes (fun x => FInv opts d x nodes ∧ SlotsOK x nodes) ?_ ?_ nodes (fun _ hn => hn)
+    defs defs' c ⟨f, hs⟩ h
+  · intro x lv nm e ne r dv hn hp hres hfind
+    obtain ⟨fx, sx⟩ := hp
+    have hslot := sx _ hn r rfl
+    refine fx.write sx lv nm e ne r hn _ ?_
+    have hni := fx.ni _ hn
+    simp only [NI] at hni ⊢
+    rw [sym_setSym_self x r _ hslot, slot_setSym x r r _ hslot]
+    refine ⟨hni.1, fun _ _ hnd => ?_⟩
+    unfold notDefined at hnd
+    rw [hfind] at hnd
+    cases hnd
+  · intro x lv nm e ne r v hn hp hres hfind hev
+    obtain ⟨fx, sx⟩ := hp
+    have hslot := sx _ hn r rfl
+    refine fx.write sx lv nm e ne r hn _ ?_
+    have hni := fx.ni _ hn
+    simp only [NI] at hni ⊢
+    rw [sym_setSym_self x r _ hslot, slot_setSym x r r _ hslot]
+    have hkn : (writeOf opts (x.sym r) v).known = (x.sym r).known := by
+      unfold writeOf; split <;> (try split) <;> rfl
+    refine ⟨fun hsl => by rw [hkn]; exact hni.1 hsl, fun hr hk _ => ?_⟩
+    rw [hkn] at hk
+    -- the mark was set by this write: the value is definite and the expression statically known
+    unfold writeOf at hr ⊢
+    split at hr
+    · simp only at hr; rw [hres] at hr; cases hr
+    · rename_i hnu
+      split at hr
+      · rename_i hc
+        simp only [hc, if_true]
+        have hpure : staticallyKnown pureP e = true := by rw [← hni.1 hslot]; exact hk
+        refine ⟨fun hu => hnu (by simpa using hu), fun d' defs'' => ?_⟩
+        rw [evalSimple_indep d d' x defs'' e hpure]; exact hev
+      · simp only at hr; rw [hres] at hr; cases hr
+
 end Casm
